@@ -1398,6 +1398,43 @@ pub fn decorate(cfg: &Cfg, rng: &mut Rng, opts: DecoOpts) -> Grammar {
     Grammar { family: c.family.clone(), start: c.start, nts, terms, token_enum, token_attrs }
 }
 
+/// A *revision* of a grammar: the same names, one rule changed (a variant dropped, a field
+/// dropped, or one terminal reference replaced by another).
+pub fn revision(g: &Grammar, rng: &mut Rng) -> Grammar {
+    let mut h = g.clone();
+    for _ in 0..8 {
+        let i = rng.below(h.nts.len());
+        match rng.below(3) {
+            0 if h.nts[i].variants.len() > 1 => {
+                let v = rng.below(h.nts[i].variants.len());
+                h.nts[i].variants.remove(v);
+                return h;
+            }
+            1 if !h.nts[i].variants.is_empty() => {
+                let v = rng.below(h.nts[i].variants.len());
+                if !h.nts[i].variants[v].fields.is_empty() {
+                    let f = rng.below(h.nts[i].variants[v].fields.len());
+                    h.nts[i].variants[v].fields.remove(f);
+                    h.nts[i].variants[v].fix_shape();
+                    return h;
+                }
+            }
+            2 if h.terms.len() > 1 && !h.nts[i].variants.is_empty() => {
+                let v = rng.below(h.nts[i].variants.len());
+                let fs = &mut h.nts[i].variants[v].fields;
+                if let Some(f) = fs.iter_mut().find(|f| matches!(f.sym, Sym::T(_))) {
+                    if let Sym::T(t) = f.sym {
+                        f.sym = Sym::T((t + 1 + rng.below(h.terms.len() - 1)) % h.terms.len());
+                        return h;
+                    }
+                }
+            }
+            _ => {}
+        }
+    }
+    h
+}
+
 /// One workload grammar for Engine B.
 /// Adds a nonterminal that derives no token sequence (no base case) and references it from
 /// an existing nonterminal: C03's side clause (canonical LR(1) stopping index) applies.
